@@ -23,7 +23,18 @@ VARS = ["a", "b", "c"]
 ALLOW_OFF = {"arith", "cmp", "bool", "event", "past", "future", "ufuture", "bpast", "bfuture", "since", "until", "bsince",
              "buntil", "not"}
 ALLOW_ON = {"arith", "cmp", "bool", "event", "past", "bpast", "since", "bsince", "not"}
+ALLOW_PAST = {"arith", "cmp", "bool", "event", "past", "bpast", "bfuture", "buntil", "bsince", "since", "not", "future"}
 SIMPLE_CONSTS = (0.0, 1.0, 2.0, 0.5, 3.0)
+
+
+def region_past_over_future(case):
+    """Outside the fragment on which pastification is correct (asked from the model): finding F15 / F46."""
+    if case.get("monitor") != "past":
+        return False
+    return common.driver_run(["frag | frag | " + F.to_proto(case["f"])])[0].strip() != "1"
+
+
+REGIONS = {"past-or-event-operator-over-future-subformula": region_past_over_future}
 
 
 def simple_formula(rng, g, d):
@@ -56,7 +67,15 @@ def impl_values(monitor, f, data, n):
     if monitor == "offd":
         o = impl.eval_offline_discrete(text, vs, data, n)
         return text, (o if o[0] != "ok" else ("ok", [p[1] for p in o[1]]))
-    return text, impl.run_online_discrete(text, vs, data, n)
+    return text, impl.run_online_discrete(text, vs, data, n, pastify=(monitor == "past"))
+
+
+def horizon_of(f):
+    """Horizon of a bounded-future formula, from the model's pastifier (`past` command: `ok h | pastified formula`)."""
+    o = common.driver_run(["past | " + F.to_proto(f)])[0]
+    if not o.startswith("ok"):
+        raise common.HarnessError("model has no horizon for %s: %s" % (F.to_proto(f), o))
+    return int(o[2:].split("|", 1)[0].strip())
 
 
 def sign_violation(vals, sats):
@@ -79,6 +98,16 @@ def check_case(ctx, monitor, f, data, n, simple, rng):
         return None
     sats = model_sat([(f, data, n)])[0]
     rep["model_sat"] = sats
+    if monitor == "past":
+        # update #i of the pastified monitor speaks about time i - h (h the horizon); the first h outputs are not verdicts
+        h = horizon_of(f)
+        rep["horizon"] = h
+        if any(v not in (common.INF, -common.INF, 0.0) for v in vals[h:]):
+            ctx.nontrivial.add((monitor,) + disc.data_key(text, data))
+        sv = sign_violation(vals[h:], sats[:max(n - h, 0)])
+        if sv:
+            return Violation("pastified online monitor, update %d (time %d): %s: %s" % (sv[0] + h, sv[0], sv[1], text), rep, stream="sign")
+        return None
     if any(v not in (common.INF, -common.INF, 0.0) for v in vals):
         ctx.nontrivial.add((monitor,) + disc.data_key(text, data))
     sv = sign_violation(vals, sats)
@@ -124,13 +153,25 @@ def check_case(ctx, monitor, f, data, n, simple, rng):
 
 def explore(ctx, rng, count):
     for _ in range(count):
-        monitor = rng.choice(["offd", "offd", "ond"])
-        g = F.Gen(rng, VARS, ALLOW_ON if monitor == "ond" else ALLOW_OFF, max_bound=rng.choice([1, 2, 3, 4]))
-        simple = rng.random() < 0.5
+        monitor = rng.choice(["offd", "offd", "ond", "past", "past"])
+        g = F.Gen(rng, VARS, {"ond": ALLOW_ON, "past": ALLOW_PAST}.get(monitor, ALLOW_OFF), max_bound=rng.choice([1, 2, 3, 4]))
+        simple = rng.random() < 0.5 and monitor != "past"
         d = rng.choice([1, 2, 3, 4])
         f = simple_formula(rng, g, d) if simple else g.formula(d)
+        if monitor == "past" and rng.random() < 0.5:
+            # a future-free operand next to a bounded-future one: pastify() has to delay the former by the horizon of the latter
+            gp = F.Gen(rng, VARS, ALLOW_ON, max_bound=rng.choice([1, 2, 3]))
+            gf = F.Gen(rng, VARS, {"cmp", "bfuture", "buntil", "future", "bool"}, max_bound=rng.choice([1, 2, 3]))
+            x, y = gp.formula(rng.choice([1, 2])), gf.formula(rng.choice([1, 2]))
+            if rng.random() < 0.6:
+                a_ = rng.randint(0, 2)
+                x = ("tb2", "since", a_, a_ + rng.randint(0, 2), gp.formula(0), gp.formula(0))
+            f = ("b", rng.choice(["and", "or", "implies"]), x, y) if rng.random() < 0.5 else ("b", rng.choice(["and", "or", "implies"]), y, x)
         n = rng.randint(1, 10)
         data = F.gen_trace(rng, F.variables(f) or ["a"], n)
+        if disc.known_region(ctx, {"monitor": monitor, "f": f}, REGIONS):
+            ctx.skipped_known += 1
+            continue
         ctx.evaluations += 1
         ctx.count("monitor:" + monitor)
         ctx.count("simple-preds" if simple else "general-preds")
@@ -168,7 +209,7 @@ def replay(ctx, obj):
 
 
 def run(ctx):
-    explore(ctx, ctx.subrng("sign"), ctx.budget(300, 5000))
+    explore(ctx, ctx.subrng("sign"), ctx.budget(400, 6000))
     if not ctx.violations:
         try:
             from .. import dense
